@@ -12,6 +12,8 @@ THEOREMS = [
     'Ndn.C11.matchNames_spec',
     'Ndn.C11.compile_correct', 'Ndn.C11.compile_correct_keytest', 'Ndn.C11.compile_correct_named', 'Ndn.C11.chains_are_expansions',
     'Ndn.C11.chain_accepts_iff_src', 'Ndn.C11.srcMatch_computes',
+    'Ndn.C11.keyInj_of_wf', 'Ndn.C11.compile_correct_wf', 'Ndn.C11.compile_correct_named_wf', 'Ndn.C11.checker_reports_iff_chain_wf',
+    'Ndn.C11.merge_key_test_holds', 'Ndn.C11.keyInj_counterexample',
 ]
 PARTIAL = {
     'Ndn.C11.compile_correct_partial':
@@ -23,10 +25,14 @@ PARTIAL = {
         'bindings so far), and every compiler layer is proved against it: pattern numbering (genPatternNumbers_num), DNF replication and '
         'reference inlining with _fresh_temp_tags as an injective renaming into unused numbers (replicateLoop_sem, chains_are_expansions: '
         'chains = expansions of the definitions, rule by rule), a chain accepts what its expansion matches (chain_accepts_iff_src), '
-        'node merging (tree_eq_chains), the iterative search (compiled_match_iff). ONE hypothesis remains in compile_correct: KeyInj - '
-        'pattern_movement\'s merge key (a string) determines tag and constraints on the chains of the schema; it is a fact about the '
-        'string encoding, not proved in general; it follows from the computable test keyInjB (merge_key_test_sound, '
-        'compile_correct_keytest), which the Lean driver evaluates on every generated schema and the harness requires to be true. '
+        'node merging (tree_eq_chains), the iterative search (compiled_match_iff). The former hypothesis KeyInj (pattern_movement\'s merge '
+        'key, a string, determines tag and constraints on the chains of the schema) is now a theorem for every schema the parser can '
+        'produce (keyInj_of_wf: decimal numbers, hex literals and the separators parse back uniquely as soon as no user-function name '
+        'contains "(" "," "}" - the grammar gives "$" + C identifier, and this is part of Schema.WF; keyInj_counterexample: without it '
+        'the key is not injective), so compile_correct_wf / compile_correct_named_wf have no hypothesis on the key; compile_correct, '
+        'compile_correct_keytest and merge_key_test_sound are kept. The computable test keyInjB, which the Lean driver still evaluates '
+        'on every generated schema, is proved true on every well-formed schema (merge_key_test_holds): a false answer is a '
+        'model/implementation alarm. '
         'Temporary rules are judged under the identifier pass 1 gives them (#_x#k); for every other rule the statement holds for the text '
         'exactly as written (compile_correct_named). The compiler model itself is tied to compile_lvs by differential execution on every '
         'run (node pools compared), and the Lean source semantics is tied to the code independently of the theorems: its executable form '
@@ -37,7 +43,8 @@ TRUSTED = [
     'C11: that NdnModel/Lvs/SrcSem.lean (120 lines: Expands, Flat.run, SrcMatches) says what docs/src/lvs/lvs.rst says - it is read '
     'against the document, and run against the real Checker.match and against an independently written Python transcription of the '
     'document (lvs_common.Spec) on every generated schema and name',
-    'C11: KeyInj (the merge key string determines tag and constraints) is a hypothesis of compile_correct, tested per schema (keyInjB)',
+    'C11: Schema.WF is what grammar.py guarantees of an AST (read against the grammar: STR components are encoded, hence non-empty; '
+    'FN_IDENT = "$" CNAME, hence non-empty and without "(" "," "}"); the schema generator only emits such ASTs',
     'C11: save/load is the TLV codec (C08); the harness compares the model object and the match results before and after',
     'C11: lark (text -> AST) and the pretty-printer of the schema generator; the Lean compiler model and the Lean source semantics '
     'receive the AST the generator pretty-prints (literal components as the bytes Component.from_str gives)',
@@ -202,7 +209,10 @@ def model_obs(answer, case, impl):
     if parts[0] == 'cerr':
         return {'compile': parts[1]}
     assert parts[0] == 'ok' and len(parts) >= 5, answer[:100]
-    key_injective = parts[3] == '1'     # the hypothesis KeyInj of the node-merging theorem, evaluated by the model
+    # KeyInj of the node-merging theorem, evaluated by the model (keyInjB).  Proved true for every schema the parser can produce
+    # (merge_key_test_holds), so a '0' here means the model was given an AST outside Schema.WF or the model of the key text is
+    # wrong: it is compared with the constant True below and reported as a model/implementation disagreement.
+    key_injective = parts[3] == '1'
     parts = parts[:3] + parts[4:]
     # identical node pools: everything is compared exactly (incl. the order of the matches); pools that are
     # equal only up to the numbering of nodes / tags: canonical forms and sorted match lists
@@ -238,7 +248,7 @@ def impl_obs(impl):
     exact = impl.get('_exact', True)
     obs = {'compile': 'ok', 'node_pool': impl['ctoken'] if exact else L.canon_pool(impl['ctoken'], impl['symbols']),
            'symbols': impl['symbols'] if exact else ','.join(sorted(impl['symbols'].split(','))), 'build': impl['build'],
-           'merge_key_injective': True}        # expected of every schema: else two different constraint sets were merged
+           'merge_key_injective': True}        # a theorem for every parsed schema (keyInj_of_wf); anything else is an alarm
     if impl['build'] == 'ok':
         obs['matches'] = impl['matches'] if exact else L.canon_matches(impl['matches'], impl['symbols'])
         obs['source_semantics_vs_checker'] = impl['checker_sets']
@@ -312,12 +322,13 @@ LEVEL_TEXT = ('Lean 4 theorems from the source text to the answers of Checker.ma
               'compiler.py as written) and of Checker._match/match. compile_correct: on the compiled model the iterative back-tracking search '
               'reports rule r with bindings s for a name iff the name matches r as written with bindings s - proved layer by layer: pattern '
               'numbering, DNF replication / reference inlining with fresh temporaries (chains = expansions of the definitions), a chain '
-              'accepts what its expansion matches, node merging (given an injective merge key, which the driver tests on every schema), '
+              'accepts what its expansion matches, node merging (the merge key is proved injective for every parsed schema, keyInj_of_wf; the '
+              'driver still evaluates the test on every schema as a cross-check), '
               'the compiled tree\'s path semantics, the iterative search = the recursive one. Tied to the code on every run by '
               'differential execution (schema AST -> Lean compiler vs real compile_lvs: node pools compared; Lean loader + matcher on the '
               'Lean-compiled pool vs real Checker; the Lean source semantics evaluated on the AST vs the real Checker.match and vs the Python '
               'oracle) and by a source-level oracle transcribed independently from the document.')
-LEVEL_NOTE = ('compile_correct is proved for the model with one hypothesis (KeyInj: the merge key string determines tag and constraints), '
-              'tested per schema. Proof is about the model; model=code is sampled.')
+LEVEL_NOTE = ('compile_correct_wf is proved for the model for every schema the parser can produce (the merge-key hypothesis KeyInj is a '
+              'theorem, keyInj_of_wf). Proof is about the model; model=code is sampled.')
 TECHNIQUE = 'Lean 4 proof (source-level semantics as an inductive relation; refinement through the compiler passes: numbering, replication with an alpha-renaming invariant for fresh temporaries, node merging = union of chains by induction on the generated tree; simulation of the iterative search; soundness/completeness w.r.t. a path semantics) + model/implementation correspondence check (compiler, loader, matcher) + source-level oracle'
 DESIGN_REF = 'DESIGN.md section 7, C11; finding F8'
